@@ -170,4 +170,61 @@ theorem C09_lone_served (c : Cfg) (s : State) (hr : Reachable c s) (hk : 0 < c.k
   intro r hra hk'
   exact ((C09_partition_at_rest c s' hr' hq).1 r (by rw [harr]; exact hra) hk').2
 
+/-- Output side.  (a) a value written to `q_out` for uid `u` is `u`'s own result and `u` was a
+    member of a recorded call; (b) the exception of call number `cid` is delivered only to members
+    of that call's batch; (c) all-or-nothing: for every recorded call, either its entry is still
+    with its worker (inside `call` / waiting to be written) or **every** member of its batch has
+    received one and the same outcome — all their own values, or all the call's exception
+    (`zip(uids, results)` pairs in order; a failing batched call fails exactly its members);
+    (d) no request ever gets more than one output. -/
+theorem C09_outputs (c : Cfg) (s : State) (hr : Reachable c s) :
+    (∀ u v, Out.res u (.val v) ∈ s.out → v = u ∧ ∃ cl ∈ s.calls, ∃ r ∈ cl.batch, r.uid = u) ∧
+    (∀ u cid, Out.res u (.callErr cid) ∈ s.out → ∃ cl, s.calls[cid]? = some cl ∧ ∃ r ∈ cl.batch, r.uid = u) ∧
+    (∀ cid cl, s.calls[cid]? = some cl →
+      (∃ e ∈ (s.ws cl.w).pd, cidOf e.st = some cid) ∨ ∃ ok, ∀ r ∈ cl.batch, outcome cid ok r ∈ s.out) ∧
+    (∀ u, shortCnt u s.out + valCnt u s.out ≤ 1) := by
+  have hl := link_reachable c hr
+  refine ⟨fun u v h => hl.out _ h, fun u cid h => hl.out _ h, hl.done, ?_⟩
+  intro u
+  have h1 := (count_reachable c hr).tot u
+  have h2 := emit_reachable c hr u
+  rw [cntU_arrived c s (count_reachable c hr)] at h1
+  simp only [tot] at h1
+  split at h1 <;> omega
+
+/-- non-vacuity (deadline attained, lone request served): one worker, `batch_size = 2`, wait 3;
+    a single request arrives and nothing else ever does: it is handed to `call` alone at exactly
+    `t0 + wait` -/
+example :
+    let c : Cfg := { k := 1, b := 2, wait := 3, pool := false }
+    ∃ s, Reachable c s ∧ s.calls = [⟨0, [⟨0, .good⟩], true, 0, 3, 3⟩] ∧ s.stopped = false := by
+  refine ⟨_, ⟨[.arrive .good, .cLock 0, .cGet 0, .cPut 0, .cNoMore 0, .cDecide 0, .gFirst 0, .tick, .tick, .tick,
+              .gTimeout 0, .gRelease 0, .callEnter 0 0], rfl⟩, ?_⟩
+  decide
+
+/-- non-vacuity (well-formedness / partition with competing workers): two workers, `batch_size = 2`;
+    arrivals good, rejected, exception value, good, good: worker 0 gets the batch `[0, 3]`, the two
+    bad inputs are short-circuited, worker 1 gets `[4]`; the failing call of worker 0 delivers its
+    error to exactly `0` and `3` -/
+example :
+    let c : Cfg := { k := 2, b := 2, wait := 0, pool := false }
+    ∃ s, Reachable c s ∧ s.calls.map (fun cl => (cl.w, cl.batch.map (·.uid))) = [(0, [0, 3]), (1, [4])] ∧
+      s.out = [.res 1 .preErr, .res 2 .inErr, .res 0 (.callErr 0), .res 3 (.callErr 0), .res 4 (.val 4)] := by
+  refine ⟨_, ⟨[.arrive .good, .arrive .rej, .arrive .exc, .arrive .good, .arrive .good,
+              .cLock 0, .cGet 0, .cPut 0, .cMore 0, .cPut 0, .cMore 0, .cPut 0, .cMore 0, .cPut 0, .cNoMore 0,
+              .cDecide 0, .cLock 1, .cGet 1, .cPut 1, .cNoMore 1, .cDecide 1,
+              .gFirst 0, .gNext 0, .gRelease 0, .callEnter 0 0, .callRet 0 0 false, .emit 0,
+              .gFirst 1, .gTimeout 1, .gRelease 1, .callEnter 1 0, .callRet 1 0 true, .emit 1], rfl⟩, ?_⟩
+  decide
+
+/-- non-vacuity (`batch_size = 0`, pool): single elements, two calls in flight, the second returns
+    first, outputs are written in order -/
+example :
+    let c : Cfg := { k := 1, b := 0, wait := 0, pool := true }
+    ∃ s, Reachable c s ∧ s.calls.map (fun cl => (cl.isList, cl.batch.map (·.uid))) = [(false, [0]), (false, [1])] ∧
+      s.out = [.res 0 (.val 0), .res 1 (.val 1)] := by
+  refine ⟨_, ⟨[.arrive .good, .arrive .good, .sGet 0, .sGet 0, .callEnter 0 0, .callEnter 0 1, .callRet 0 1 true,
+              .callRet 0 0 true, .emit 0, .emit 0], rfl⟩, ?_⟩
+  decide
+
 end Batch
